@@ -30,7 +30,7 @@ def run(chk, replay):
     quick = chk.tier == "quick"
     chk.model("MC_Tp22_c02q.tla" if quick else "MC_Tp22_c02.tla", "MC_Tp22_c02q.cfg" if quick else "MC_Tp22_c02.cfg",
               timeout=3000)
-    scs = gen22.grid_c02(chk.tier) + gen22.capacity(chk.tier, chk.seed) + gen22.mixes(80 if quick else 800, chk.seed)
+    scs = gen22.grid_c02(chk.tier) + gen22.capacity(chk.tier, chk.seed) + gen22.staggered(chk.tier) + gen22.mixes(80 if quick else 800, chk.seed)
     traces = [scen.run(sc)[0] for sc in scs]
     chk.validate("Tp22Trace.tla", "Tp22Trace.cfg", traces, "main", nontrivial=nontrivial)
 
